@@ -15,7 +15,9 @@ THEOREMS = [
     "Typedpy.C18.readable_raises_iff", "Typedpy.C18.readable_total",
     "Typedpy.C18.readable_total_on_rejections", "Typedpy.C18.readable_raises_example",
     "Typedpy.C18.collect_all_exact", "Typedpy.C18.fail_fast_member", "Typedpy.C18.statement_partial",
-    "Typedpy.C18.statement_false", "Typedpy.C18.construct_example",
+    "Typedpy.C18.statement_false", "Typedpy.C18.construct_example", "Typedpy.C18.phase_one_scalar_sound",
+    "Typedpy.C18.phase_one_float_spelling", "Typedpy.C18.phase_one_float_int_examples",
+    "Typedpy.C18.deser_collect_exact_iff", "Typedpy.C18.two_phase_example",
 ]
 RULE = ("flat classes (1..5 fields: Integer/Number/Float incl. sign variants, String, Boolean, Enum, and Array/Deque/"
         "Set/Tuple/Map over them) from the type-directed declaration generator; per class a valid argument set, then "
@@ -23,14 +25,18 @@ RULE = ("flat classes (1..5 fields: Integer/Number/Float incl. sign variants, St
         "boundary neighbour of a bound, a corrupted element / key / value, a payload string containing ';', newline, "
         "': ', quotes, '; Got ', trailing newline, non-ASCII, JSON text; each argument set run through the constructor "
         "and through Deserializer.deserialize under fail_fast on and off (global restored and checked); plus "
-        "hand-written cases pinning every known finding, plus nested classes (helpers must not raise). Compared: "
+        "hand-written cases pinning every known finding, plus nested classes (helpers must not raise), plus a directed "
+        "stream: every bounded scalar kind (numbers in int AND float spelling, strings) bare and as element of every "
+        "collection kind, violated alone and with 1-2 further invalid fields, through the constructor, "
+        "Deserializer.deserialize and deserialize_structure, fail_fast on/off. Compared: phase one of deserialization "
+        "(Lean `phaseOneInvalid` vs the real deserialize_single_field, field by field); "
         "model exception class / class prefix / path / shape vs str(exception); model parse vs the real ErrorInfo(s). "
         "Oracle: the property statement on the real results with the invalid set computed by Lean `validate`.")
 ASSUMPTIONS = [
     "Python's json module is an oracle (Codec): the only law assumed in theorems is loads(dumps(xs)) = xs on lists of strings (explicit hypothesis); the driver instantiates it with Lean.Data.Json",
     "Python's str.isalnum (what \\w matches) is an oracle (Word): assumed only to contain ASCII letters/digits and not ':'; the harness supplies its answers for the non-ASCII characters of each message",
     "value and problem TEXTS are universally quantified parameters of the model (not predicted); the driver reads them off the real message; predicted are exception class, class prefix, path, suffix, shape, order and count",
-    "deserialization is not modelled at the site level: for Deserializer runs the correspondence covers the helper's parse of the real message, and the property oracle runs with the invalid set of the lifted arguments",
+    "deserialization: WHICH supplied fields its first phase (deserialize_single_field) rejects is modelled (phaseOneInvalid) and corresponded field by field; its message sites are not: for deserialization runs the text correspondence covers only the helper's parse of the real message; the property oracle runs with the invalid set of the lifted arguments and classifies unreported fields by the Lean phase-one model (never by the code under test)",
     "PYTHONHASHSEED=0; the class dump lists fields in the real signature order",
 ]
 TRUSTED_EXTRA = [
@@ -62,5 +68,7 @@ def judge(case, impl, model):
     msg = None
     if case["mode"] == "construct" and model.get("flat"):
         msg = S.construct_correspondence(case, impl, model)
+    if case["mode"] == "deser" and model.get("flat"):
+        msg = msg or S.deser_correspondence(case, impl, model)
     msg = msg or S.readable_correspondence(impl, model)
     return msg, S.oracle(case, impl, model)
